@@ -91,7 +91,12 @@ class Checker:
             if self.lockstep_only:
                 self.wf(op); self.state(op.inst)['prev_op'] = op; continue
             self.wf(op)
-            self.step(op)
+            try: self.step(op)
+            except Exception as ex:
+                import traceback
+                self.v('C00', 'harness|monitor-exception', op, traceback.format_exc()[-600:])
+                try: self.state(op.inst)['model'].resync(op.act, op.res); self.state(op.inst)['prev_op'] = op
+                except Exception: pass
     # ------------------------------------------------------------------
     def split(self, op):
         pre = []; guards = []; cbs = []; enters = []; plines = []; llines = []; self.pl = []; self.rl = []; self.dumps = {}; self.cdumps = {}; lastq = None; self.cj = []; self.klines = []; self.ylist = []; self.vflag = None; self.bytes = None
@@ -604,7 +609,9 @@ class Checker:
         ans = m.ans
         def consume(state, meth): return self.pconsume and (meth, state) not in self.masked and (ans.h(state, 40 + meth) % 1000) < self.pconsume
         def kids(n):
-            if nodes[n]['kind'] == 'C': return [nodes[n]['children'][ord(sub[n]) - 48]] if sub[n] not in '-.' else []
+            if nodes[n]['kind'] == 'C':
+                i = ord(sub[n]) - 48 if sub[n] not in '-.' else -1
+                return [nodes[n]['children'][i]] if 0 <= i < len(nodes[n]['children']) else []     # a malformed configuration is C01's finding, not a reason to stop
             return nodes[n]['children']
         exp = []
         def simple(n, meth, pre):
@@ -785,6 +792,15 @@ class Checker:
             for f in g['full']:
                 self.stats['C14.payloads-seen-by-guards'] += 1
                 if f[0] == -777 or f[0] == -778: self.v('C14', 'payload|corrupted-in-pending-transition', op, f)
+        for st_, seen, want in m.payload_mismatch[:1]:
+            bad = [(a, b) for a, b in zip(seen, want) if a[0] != b[0]]
+            what = 'request-without-payload-exposes-one' if any(b[0] == -1 for a, b in bad) else ('payload-missing' if any(a[0] == -1 for a, b in bad) else 'payload-of-another-request')
+            self.v('C14', 'payload|pendingTransitions-seen-by-guard|' + what, op, {'guard-state': st_, 'seen': seen[:6], 'issued': want[:6]})
+        if op.prev is not None and len(op.prev) == len(m.prev) and [p[1:] for p in op.prev] == [(r[0], r[1], r[3]) for r in m.prev]:
+            bad = [(p[0], r[2]) for p, r in zip(op.prev, m.prev) if p[0] != r[2]]
+            if bad:
+                what = 'request-without-payload-exposes-one' if any(b == -1 for a, b in bad) else ('payload-missing' if any(a == -1 for a, b in bad) else 'payload-of-another-request')
+                self.v('C14', 'payload|previousTransitions|' + what, op, {'recorded': [p[0] for p in op.prev], 'issued': [r[2] for r in m.prev]})
         exp_cur = [r[2] for r in m.prev]
         for s, ids in enters:
             self.stats['C14.payloads-seen-in-enter'] += 1
